@@ -18,13 +18,16 @@ import (
 
 // /verif/props/<id>.json
 type PropConfig struct {
-	ID        string       `json:"id"`
-	Packages  []string     `json:"packages"`
-	Functions []string     `json:"functions"` // regexps over full ssa function names; functions need not have a contract
-	Lemmas    []string     `json:"lemmas"`
-	Trusted   []string     `json:"trusted_base"`
-	Notes     []string     `json:"remainder"`
-	Bounded   []BoundedCfg `json:"bounded"`
+	ID         string       `json:"id"`
+	Packages   []string     `json:"packages"`
+	SweepFlags     []string `json:"sweep_flags"`     // flags given to swept functions that have no contract (zero-annotation sweep)
+	SweepFunctions []string `json:"sweep_functions"` // extra function regexps of the sweep
+	SweepTier      string   `json:"sweep_tier"`      // "" = every tier, "thorough" = thorough tier only
+	Functions  []string     `json:"functions"`   // regexps over full ssa function names; functions need not have a contract
+	Lemmas     []string     `json:"lemmas"`
+	Trusted    []string     `json:"trusted_base"`
+	Notes      []string     `json:"remainder"`
+	Bounded    []BoundedCfg `json:"bounded"`
 }
 
 type BoundedCfg struct {
@@ -189,19 +192,57 @@ func cmdCheck(args []string) {
 	for _, f := range cfg.Functions {
 		res = append(res, regexp.MustCompile(f))
 	}
+	sweepOn := len(cfg.SweepFlags) > 0 && (cfg.SweepTier == "" || cfg.SweepTier == *tier)
+	var sweepRes []*regexp.Regexp
+	if sweepOn {
+		for _, f := range cfg.SweepFunctions {
+			sweepRes = append(sweepRes, regexp.MustCompile(f))
+		}
+	}
 	var fns []*ssa.Function
+	swept := map[*ssa.Function]bool{}
 	for name, fn := range P.funcs {
 		if len(fn.Blocks) == 0 {
 			continue
 		}
+		matched := false
 		for _, re := range res {
 			if re.MatchString(name) {
-				fns = append(fns, fn)
+				matched = true
 				break
 			}
 		}
+		if !matched {
+			for _, re := range sweepRes {
+				if re.MatchString(name) {
+					matched, swept[fn] = true, true
+					break
+				}
+			}
+		}
+		if matched {
+			fns = append(fns, fn)
+		}
 	}
 	sort.Slice(fns, func(i, j int) bool { return fns[i].String() < fns[j].String() })
+	if sweepOn {
+		// zero-annotation sweep: every swept function without a contract gets the sweep flags, registered
+		// up front so that a call from one swept function to another sees the callee's flags
+		for _, fn := range fns {
+			if P.cs.Funcs[fn.String()] != nil || (len(sweepRes) > 0 && !swept[fn]) {
+				continue
+			}
+			pk := ""
+			if fn.Pkg != nil {
+				pk = fn.Pkg.Pkg.Path()
+			}
+			ct := &FuncContract{Key: shortName(fn.String()), PkgPath: pk, Flags: map[string]bool{}, Loops: map[int]*LoopSpec{}, Synth: true}
+			for _, f := range cfg.SweepFlags {
+				ct.Flags[f] = true
+			}
+			P.cs.Funcs[fn.String()] = ct
+		}
+	}
 	tmo := 5000
 	if *tier == "thorough" {
 		tmo = 30000
@@ -217,7 +258,7 @@ func cmdCheck(args []string) {
 		}
 		return false
 	}
-	results := verifyFuncs(P, fns, solveOpts{dir: scratch, timeoutMs: tmo, thorough: *tier == "thorough", seed: seed, keepFiles: true, wantRetry: wantRetry}, 16)
+	results := verifyFuncs(P, fns, solveOpts{dir: scratch, timeoutMs: tmo, thorough: *tier == "thorough", seed: seed, keepFiles: true, wantRetry: wantRetry, sweepFlags: cfg.SweepFlags}, 16)
 
 	var obs []obEvidence
 	var undecidedNotes []string
